@@ -1,3 +1,215 @@
-import OptreeModel.Model.Eval
+/-
+  C03  All traversal entry points agree with each other.
+  Helper lemmas: Lemmas/Agree.lean.
+-/
+import OptreeModel.Lemmas.Agree
+import OptreeModel.Lemmas.Leaves
+import OptreeModel.Properties.C01
+
 namespace Optree
+
+/-- forget the paths of a `flattenWithPath` result -/
+def dropPaths : Except Err (List (List Key) × List PyObj × Spec) → Except Err (List PyObj × Spec)
+  | .ok (_, ls, sp) => .ok (ls, sp)
+  | .error e => .error e
+
+/-- **flatten and flatten-with-path agree** on leaves, on the whole node array, on the recorded
+namespace *and on the exception type* — for every tree whose custom flatten functions are
+well-behaved (`wf`), every registry, namespace, predicate, dict-order mode and depth limit
+(so over-deep trees fail identically). -/
+theorem C03_flatten_with_path_agrees (cfg : Cfg) (t : PyObj) (hwf : t.wf = true) :
+    dropPaths (flattenWithPath cfg t) = flatten cfg t := by
+  unfold flattenWithPath flatten
+  simp only
+  have h := aobj cfg (!cfg.insertionOrdered) t hwf 0 []
+  cases hP : flattenGoP cfg (!cfg.insertionOrdered) 0 [] t with
+  | error e =>
+    rw [hP] at h
+    simp only [eraseR] at h
+    rw [← h]
+    rfl
+  | ok o =>
+    rw [hP] at h
+    simp only [eraseR] at h
+    rw [← h]
+    simp [dropPaths, FlatOutP.erase]
+
+/-- the number of paths returned by flatten-with-path equals the number of leaves and the
+treespec's leaf count -/
+theorem C03_counts (cfg : Cfg) (t : PyObj) (ps : List (List Key)) (ls : List PyObj) (sp : Spec)
+    (hwf : t.wf = true) (h : flattenWithPath cfg t = .ok (ps, ls, sp)) :
+    ps.length = ls.length ∧ sp.numLeaves = ls.length := by
+  have hl : ps.length = ls.length := by
+    unfold flattenWithPath at h
+    simp only at h
+    split at h
+    · simp at h
+    · simp only [Except.ok.injEq, Prod.mk.injEq] at h
+      rw [← h.1, ← h.2.1]
+      simp
+  have h2 := C03_flatten_with_path_agrees cfg t hwf
+  rw [h] at h2
+  simp only [dropPaths] at h2
+  exact ⟨hl, (C01_flatten_sane' cfg t ls sp h2.symm)⟩
+where
+  C01_flatten_sane' (cfg : Cfg) (t : PyObj) (ls : List PyObj) (sp : Spec)
+      (h : flatten cfg t = .ok (ls, sp)) : sp.numLeaves = ls.length := by
+    unfold flatten at h
+    simp only at h
+    split at h
+    · simp at h
+    · rename_i out hout
+      simp only [Except.ok.injEq, Prod.mk.injEq] at h
+      obtain ⟨hl, hs⟩ := h
+      subst hl hs
+      obtain ⟨n, h1, _, h3⟩ := flattenGo_sane cfg _ 0 t out hout
+      simp [Spec.numLeaves, h1, h3]
+
+theorem closeSeq_root_kind (rs : List (Except Err FlatOut)) (kind : Kind) (arity : Nat)
+    (data : NodeData) (entries : Option (List Key)) (custom : Option Reg) (okeys : Option (List Key))
+    (out : FlatOut) (h : closeSeq rs kind arity data entries custom okeys = .ok out) :
+    ∃ n, out.nodes.getLast? = some n ∧ n.kind = kind := by
+  unfold closeSeq at h
+  split at h
+  · simp at h
+  · rename_i b _
+    simp at h; subst h
+    exact ⟨{ kind := kind, arity := arity, data := data, entries := entries, custom := custom,
+             numLeaves := b.leaves.length, numNodes := b.nodes.length + 1, originalKeys := okeys },
+           by simp [FlatOut.close], rfl⟩
+
+theorem customFlatten_root_kind (reg : Reg) (co : CustomOut) (rs : List (Except Err FlatOut))
+    (out : FlatOut) (h : customFlatten reg co rs = .ok out) :
+    ∃ n, out.nodes.getLast? = some n ∧ n.kind = .custom := by
+  unfold customFlatten at h
+  split at h; · simp at h
+  split at h; · simp at h
+  split at h; · simp at h
+  rename_i b _
+  simp only at h
+  split at h; · simp at h
+  rename_i ents _
+  simp at h; subst h
+  exact ⟨{ kind := .custom, arity := rs.length, data := .md co.md, entries := ents, custom := some reg,
+           numLeaves := b.leaves.length, numNodes := b.nodes.length + 1, originalKeys := Option.none },
+         by simp [FlatOut.close], rfl⟩
+
+theorem not_leaf_spec_of_root_kind (out : FlatOut) (k : Kind) (hk : k ≠ .leaf)
+    (h : ∃ n, out.nodes.getLast? = some n ∧ n.kind = k) : out.nodes ≠ [Node.leaf] := by
+  intro e
+  obtain ⟨n, hn, hkind⟩ := h
+  rw [e] at hn
+  simp at hn
+  subst hn
+  exact hk (by simpa [Node.leaf] using hkind.symm)
+
+/-- **tree_is_leaf ⇒**: if `isLeaf` says yes, flattening yields `[x]` with a leaf treespec -/
+theorem C03_is_leaf_flatten (cfg : Cfg) (x : PyObj) (h : isLeaf cfg x = .ok true) :
+    ∃ ns, flatten cfg x = .ok ([x], ⟨[Node.leaf], cfg.noneIsLeaf, ns⟩) := by
+  unfold isLeaf at h
+  unfold flatten
+  simp only
+  have hgo : flattenGo cfg (!cfg.insertionOrdered) 0 x = .ok (leafOut x) := by
+    cases hp : cfg.evalPred x with
+    | error e => simp [hp] at h
+    | ok p =>
+      cases p with
+      | true => cases x <;> rw [flattenGo] <;> simp [hp]
+      | false =>
+        simp only [hp, Except.ok.injEq, beq_iff_eq] at h
+        cases x <;> rw [flattenGo] <;> simp only [hp, Nat.not_lt_zero, gt_iff_lt, if_false] <;>
+          simp only [getKind] at h
+        all_goals first
+          | rfl
+          | (split at h <;> simp_all)
+          | (exact absurd h (by decide))
+  simp [hgo, leafOut]
+
+/-- **tree_is_leaf ⇐**: if flattening yields a one-node leaf treespec, `isLeaf` says yes -/
+theorem C03_flatten_is_leaf (cfg : Cfg) (x : PyObj) (ls : List PyObj) (ns : String)
+    (h : flatten cfg x = .ok (ls, ⟨[Node.leaf], cfg.noneIsLeaf, ns⟩)) : isLeaf cfg x = .ok true := by
+  unfold flatten at h
+  simp only at h
+  split at h
+  · simp at h
+  · rename_i out hout
+    simp only [Except.ok.injEq, Prod.mk.injEq, Spec.mk.injEq] at h
+    have hnodes : out.nodes = [Node.leaf] := h.2.1
+    unfold isLeaf
+    cases hp : cfg.evalPred x with
+    | error e =>
+      cases x <;> rw [flattenGo] at hout <;> simp [hp] at hout
+    | ok p =>
+      cases p with
+      | true => rfl
+      | false =>
+        simp only [Except.ok.injEq, beq_iff_eq]
+        cases x <;> rw [flattenGo] at hout <;>
+          simp only [hp, Nat.not_lt_zero, gt_iff_lt, if_false] at hout <;> simp only [getKind]
+        all_goals first
+          | rfl
+          | exact absurd hnodes (not_leaf_spec_of_root_kind out _ (by decide)
+              (closeSeq_root_kind _ _ _ _ _ _ _ out hout))
+          | skip
+        · -- none
+          split at hout
+          · rename_i hn; simp [hn]
+          · simp at hout; subst hout; simp [FlatOut.close, FlatOut.empty, Node.leaf] at hnodes
+        · -- ntuple
+          split at hout
+          · exact absurd hnodes (not_leaf_spec_of_root_kind out _ (by decide)
+              (customFlatten_root_kind _ _ _ out hout))
+          · exact absurd hnodes (not_leaf_spec_of_root_kind out _ (by decide)
+              (closeSeq_root_kind _ _ _ _ _ _ _ out hout))
+        · -- sseq
+          split at hout
+          · exact absurd hnodes (not_leaf_spec_of_root_kind out _ (by decide)
+              (customFlatten_root_kind _ _ _ out hout))
+          · exact absurd hnodes (not_leaf_spec_of_root_kind out _ (by decide)
+              (closeSeq_root_kind _ _ _ _ _ _ _ out hout))
+        · -- user
+          split at hout
+          · exact absurd hnodes (not_leaf_spec_of_root_kind out _ (by decide)
+              (customFlatten_root_kind _ _ _ out hout))
+          · rename_i hl; simp [hl]
+
+/-! ### error parity: what holds, and what does not -/
+
+def C03_kReg : Registry :=
+  { global := [(0, 0, { rid := 1, cls := 0, clsKind := 0, entryKind := .getattr, mode := .named })]
+    named := [] }
+
+/-- a custom node whose flatten function returns one entry too few and whose extra child is
+over-deep (depth limit 1 for the example) -/
+def C03_kTree : PyObj :=
+  .user 0 Option.none .entriesMinus [.leaf 0 1, .list [.list [.leaf 0 2]]]
+
+/-- **Error parity does not hold for malformed custom nodes** (known finding
+`error-parity-malformed-custom-vs-depth`): flatten reports the over-deep child, flatten-with-path
+the entries mismatch. -/
+theorem C03_error_parity_full_false :
+    (match flatten { reg := C03_kReg, maxDepth := 1 } C03_kTree,
+           flattenWithPath { reg := C03_kReg, maxDepth := 1 } C03_kTree with
+     | .error .recursion, .error .runtime => true
+     | _, _ => false) = true := by decide
+
+/-- … but it does hold (with identical results) whenever the flatten functions are well-behaved:
+`C03_flatten_with_path_agrees` above. -/
+theorem C03_error_parity_partial (cfg : Cfg) (t : PyObj) (hwf : t.wf = true) (e : Err) :
+    flatten cfg t = .error e ↔ flattenWithPath cfg t = .error e := by
+  have h := C03_flatten_with_path_agrees cfg t hwf
+  constructor
+  · intro he
+    rw [he] at h
+    cases hp : flattenWithPath cfg t with
+    | error e' => rw [hp] at h; simp [dropPaths] at h; rw [h]
+    | ok r => rw [hp] at h; obtain ⟨_, _, _⟩ := r; simp [dropPaths] at h
+  · intro he
+    rw [he] at h
+    simpa [dropPaths] using h.symm
+
+/-! ### non-vacuity -/
+
+example : C01_demoTree.wf = true := by decide
+
 end Optree
